@@ -330,7 +330,12 @@ func genC17(t *rapid.T) C17Case {
 // run
 // ---------------------------------------------------------------------------------------
 
-func TestProp_C17(t *testing.T) { ev.Run(t, "C17", genC17, runC17) }
+func TestProp_C17(t *testing.T) {
+	if sweepFailed {
+		t.Skip("the directed sweep (TestExh_C17) already recorded a violation")
+	}
+	ev.Run(t, "C17", genC17, runC17)
+}
 
 func runC17(c C17Case) ev.Outcome {
 	switch c.Kind {
